@@ -291,8 +291,12 @@ Proof.
   { apply forallb_forall. intros it Hin. rewrite Forall_forall in Hitems. specialize (Hitems it Hin).
     unfold da_threshold_ok. rewrite zkp_threshold_c_no_panic by lia. apply orb_true_r. }
   rewrite Hfa. cbn [negb].
-  destruct (DaProofs.end_block_total (da_verdict (Da.pr_rf p)) now (di_state i) (di_bank i)) as (s' & b' & E).
-  - intros x Hx _. rewrite Forall_forall in Hitems. specialize (Hitems x Hx). fold p.
+  set (s_run := if di_nact i =? 0 then with_pp (di_state i) (now + 1) else di_state i).
+  assert (Hsame : Da.s_items s_run = Da.s_items (di_state i) /\ Da.pr_thr (Da.s_prm s_run) = Da.pr_thr p).
+  { unfold s_run. destruct (di_nact i =? 0); split; reflexivity. }
+  destruct Hsame as (Hit & Hthr).
+  destruct (DaProofs.end_block_total (da_verdict (Da.pr_rf p)) now s_run (di_bank i)) as (s' & b' & E).
+  - intros x Hx _. rewrite Hit in Hx. rewrite Hthr. rewrite Forall_forall in Hitems. specialize (Hitems x Hx).
     unfold Dec.in_range. apply Z.leb_le. unfold N_MAX, DEC_LIM, P in *. nia.
   - apply da_verdict_total. exact Hrf.
   - rewrite E. cbn [rbind].
